@@ -1,11 +1,12 @@
 #![allow(dead_code, unused_imports, unused_macros, unused_variables, unused_mut, clippy::all)]
 pub mod util;
 pub mod mvalue;
+pub mod mop;
 #[cfg(kani)]
 mod gen;
 #[cfg(kani)]
 mod c09;
 #[cfg(kani)]
-mod c07;
+pub mod c07;
 #[cfg(kani)]
 mod setup;
